@@ -5,6 +5,7 @@ from .. import placement as P
 from .. import datarules as D
 from ..facts import Callee
 from ..paths import enumerate_paths
+from .. import semq as Q
 from . import c04
 
 PROP = "C07"
@@ -24,76 +25,137 @@ TECHNIQUE = 'static: path enumeration of add_batch (union operands, assembly ord
 RULE_TEXT = "one obligation per union operand, traversal chain, wiring site and imported slot obligation"
 
 
+SET_PRESERVING = ("sort", "dedup", "sort_unstable", "shrink_to_fit", "reserve")
+GROWING = ("extend", "append", "extend_from_slice", "push", "insert")
+
+
+def contributions(ev, events, coll, loops=()):
+    """What happens to the collection `coll` along a sequence of events (all ways of loops are followed):
+    ('add', callee name, value term, enclosing loops) / ('yield', element, loops) / ('mut', callee name)."""
+    out = []
+    for x in events:
+        if x[0] == "call":
+            c, args = x[2], x[3]
+            if c.local or not args or Q.strip(ev, args[0]) != coll:
+                continue
+            if c.name in GROWING and len(args) > 1:
+                out.append(("add", c.name, args[1], loops))
+            elif c.name in S.SHAPE_MUTATORS and c.name not in SET_PRESERVING:
+                out.append(("mut", c.name))
+        elif x[0] == "yield":
+            if coll[0] == "call" and x[1] == coll[1]:
+                out.append(("yield", x[2], loops))
+        elif x[0] == "loop":
+            for it in x[1].iters:
+                out.extend(contributions(ev, it.path.events, coll, loops + (x[1],)))
+    return out
+
+
 def union(ctx, report, facts, config, rule="C07.UNION"):
-    prog = ctx.program(facts)
     b = facts.one(A.DB + "::add_batch")
     report.touched(b, config)
-    paths = [p for p in enumerate_paths(b, facts) if p.end == "return"]
-    report.ob(rule, "add_batch/paths", len(paths) >= 1, "%d returning path(s)" % len(paths), site=b.loc(), config=config)
-    for p in paths:
-        calls = p.calls()
-        news = [e for e in calls if e[2].name == "new" and e[2].self_head == A.BACC]
+    far = facts.one(A.SB + "::fetch_all_reads")
+    faw = facts.one(A.SB + "::fetch_all_writes")
+    build = facts.one(A.DB + "::build")
+    create = facts.one(name="create", self_head=A.BCS, container="inherent")
+    addb = facts.one(A.DB + "::add")
+    newb = facts.one(name="new", self_head=A.BACC, container="inherent")
+    ev, ends = Q.sem(ctx, facts, A.DB + "::add_batch", opaque=[far.key, faw.key, build.key, create.key, addb.key, newb.key])
+    rets = [e for e in ends if e.kind == "return"]
+    report.ob(rule, "add_batch/paths", len(rets) >= 1, "%d returning path(s)" % len(rets), site=b.loc(), config=config)
+    for e in rets:
+        calls = [x for x in e.path.events if x[0] == "call"]
+        pos = dict((id(x), i) for i, x in enumerate(e.path.events))
+        news = [x for x in calls if x[2].key == newb.key]
         if len(news) != 1:
             report.ob(rule, "add_batch/accessor", False, "BatchAccessor::new is called %d time(s)" % len(news), site=b.loc(), config=config)
             continue
         r_t, w_t = news[0][3]
-        for label, t, fa, meth in (("reads", r_t, "fetch_all_reads", "reads"), ("writes", w_t, "fetch_all_writes", "writes")):
+        for label, t, fab, meth in (("reads", r_t, far, "reads"), ("writes", w_t, faw, "writes")):
             problems = []
-            if not (P._is_call(b, t, fa, head=A.SB) and t[2] == (("field", ("param", 3), "stages_builder", A.DB),)):
-                problems.append("the %s operand does not start from dispatcher_builder.stages_builder.%s()" % (label, fa))
-            ext = [e for e in calls if e[2].name in ("extend", "append", "extend_from_slice", "push", "insert") and not e[2].local and e[3] and e[3][0] == t]
-            vals = []
-            for e in ext:
-                v = e[3][1] if len(e[3]) > 1 else None
-                c = P._callee(b, v)
-                vals.append((c.trait, c.name, c.self_arg_s) if c else ("?", "?", str(v)[:40]))
-            want = (A.T_SYSDATA, meth)
-            good = [v for v in vals if v[:2] == want and "BatchSystemData" in (v[2] or "")]
-            if len(good) != 1:
+            base = Q.strip(ev, t)
+            c = Q.callee_of(ev, base)
+            if not (c is not None and c.key == fab.key and base[2] == (("field", ("param", 3), "stages_builder", A.DB),)):
+                problems.append("the %s operand does not start from dispatcher_builder.stages_builder.%s()" % (label, fab.name))
+            good = 0
+            for k in contributions(ev, e.path.events, base):
+                if k[0] == "mut":
+                    problems.append("the %s operand is reshaped by `%s`" % (label, k[1]))
+                    continue
+                v = Q.strip(ev, k[2], extra=("into_iter",))
+                vc = Q.callee_of(ev, v)
+                if k[0] == "add" and k[1] in ("extend", "append") and not k[3] and vc is not None and vc.trait == A.T_SYSDATA and vc.name == meth and "BatchSystemData" in (vc.self_arg_s or ""):
+                    good += 1
+                else:
+                    problems.append("the %s operand also receives %s" % (label, vc.short() if vc is not None else str(v)[:40]))
+            if good != 1:
                 problems.append("the controller's declared %s (<T::BatchSystemData as SystemData>::%s()) are not added exactly once" % (label, meth))
-            bad = [v for v in vals if v not in good]
-            if bad:
-                problems.append("the %s operand also receives %s" % (label, bad))
-            report.ob(rule, "add_batch/%s" % label, not problems, "; ".join(problems) if problems else
-                      "%s = %s(inner) + controller's declared %s" % (label, fa, meth), site=b.loc(), config=config)
+            report.ob(rule, "add_batch/%s" % label, not problems, "; ".join(sorted(set(problems))) if problems else
+                      "%s = %s(inner) + controller's declared %s" % (label, fab.name, meth), site=b.loc(), config=config)
         # SAME: reads happen before build consumes the builder; the built dispatcher goes to create
-        builds = [e for e in calls if e[2].name == "build" and e[2].self_head == A.DB]
-        creates = [e for e in calls if e[2].name == "create" and e[2].self_head == A.BCS]
-        adds = [e for e in calls if e[2].name == "add" and e[2].self_head == A.DB]
-        fas = [e for e in calls if e[2].name in ("fetch_all_reads", "fetch_all_writes")]
+        builds = [x for x in calls if x[2].key == build.key]
+        creates = [x for x in calls if x[2].key == create.key]
+        adds = [x for x in calls if x[2].key == addb.key]
+        fas = [x for x in calls if x[2].key in (far.key, faw.key)]
         ok = len(builds) == 1 and len(creates) == 1 and len(adds) == 1 and len(fas) == 2
         detail = "%d build / %d create / %d add / %d fetch_all" % (len(builds), len(creates), len(adds), len(fas))
         if ok:
-            ok = (builds[0][3] == (("param", 3),) and all(p.blocks.index(f[1]) < p.blocks.index(builds[0][1]) for f in fas)
-                  and creates[0][3][0] == ("call", news[0][1], news[0][3]) and creates[0][3][1] == ("param", 2)
-                  and creates[0][3][2] == ("call", builds[0][1], builds[0][3])
-                  and adds[0][3][0] == ("param", 1) and adds[0][3][1] == ("call", creates[0][1], creates[0][3]) and adds[0][3][2:] == (("param", 4), ("param", 5)))
+            ok = (builds[0][3] == (("param", 3),) and all(pos[id(f)] < pos[id(builds[0])] for f in fas)
+                  and creates[0][3][0] == news[0][4] and creates[0][3][1] == ("param", 2)
+                  and creates[0][3][2] == builds[0][4]
+                  and adds[0][3][0] == ("param", 1) and adds[0][3][1] == creates[0][4] and adds[0][3][2:] == (("param", 4), ("param", 5)))
             detail = ("tables are read before dispatcher_builder.build(); create(accessor, controller, built dispatcher); registered with self.add(batch, name, dep)" if ok
                       else "the batch system is not assembled from (accessor, controller, dispatcher_builder.build()) and registered through self.add")
         report.ob("C07.SAME", "add_batch/assembly", ok, detail, site=b.loc(), config=config)
 
 
 def all_rule(ctx, report, facts, config, rule="C07.ALL"):
-    prog = ctx.program(facts)
+    """fetch_all_reads / fetch_all_writes return every id stored at the third level of the accumulating table."""
     acc = P.acc_fields(facts, ctx)
     for name, key in (("fetch_all_reads", "R"), ("fetch_all_writes", "W")):
         b = facts.one(A.SB + "::" + name)
         report.touched(b, config)
-        bt = prog.bt(b)
-        ret = bt.local(0)
-        names = []
-        t = ret
-        while isinstance(t, tuple) and t and t[0] == "call":
-            names.append(bt.callee(t[1]).name)
-            t = t[2][0] if t[2] else None
-        want = ["collect", "cloned", "flatten", "flatten", "iter", "deref"]
-        okc = names == want or names == want[:-1]
-        okf = t == ("field", ("param", 1), acc[key], A.SB)
-        muts = [Callee(tm["func"]).name for bb, tm in b.normal_calls() if Callee(tm["func"]).name in S.SHAPE_MUTATORS]
-        okm = sorted(muts) == ["dedup", "sort"]
-        report.ob(rule, name, okc and okf and okm,
-                  "self.%s.iter().flatten().flatten().cloned().collect(), then sort + dedup" % acc[key] if okc and okf and okm else
-                  "%s is %s over %s with post-processing %s (expected a full flatten of the accumulated %s)" % (name, list(reversed(names)), t, muts, "reads" if key == "R" else "writes"),
+        ev, ends = Q.sem(ctx, facts, A.SB + "::" + name)
+        rets = [e for e in ends if e.kind == "return"]
+        problems = []
+        if not rets:
+            problems.append("no normal path")
+        for e in rets:
+            coll = Q.strip(ev, e.ret)
+            ks = contributions(ev, e.path.events, coll)
+            elems = [k for k in ks if k[0] in ("yield", "add")]
+            for k in ks:
+                if k[0] == "mut":
+                    problems.append("the result is reshaped by `%s`" % k[1])
+            if len(elems) != 1:
+                problems.append("the result is filled from %d places (expected one full traversal)" % len(elems))
+                continue
+            k = elems[0]
+            if k[0] == "add" and k[1] not in ("push",):
+                problems.append("the result is filled by `%s`" % k[1])
+                continue
+            val = Q.strip(ev, k[2] if k[0] == "add" else k[1])
+            loops = k[-1]
+            if len(loops) != 3:
+                problems.append("the elements are reached through %d nested traversal(s) (expected stages, groups, ids)" % len(loops))
+                continue
+            prev = None
+            for depth, L in enumerate(loops):
+                src = Q.strip(ev, L.source)
+                if depth == 0:
+                    if src != ("field", ("param", 1), acc[key], A.SB):
+                        problems.append("the traversal does not start from self.%s (the table that accumulates declared %s)" % (acc[key], "reads" if key == "R" else "writes"))
+                elif src != prev:
+                    problems.append("level %d does not traverse the element of level %d" % (depth + 1, depth))
+                from ..semcov import _term_class
+                cls = _term_class(ev, L.source)
+                if cls != "full" or not Q.is_full(L) or [n for n, _ in L.stages]:
+                    problems.append("level %d of the table is not traversed in full (%s)" % (depth + 1, cls if cls != "full" else ("can stop early" if not Q.is_full(L) else "adaptors %s" % [n for n, _ in L.stages])))
+                prev = L.elem
+            if val != prev:
+                problems.append("what is collected is not the id found at the innermost level")
+        report.ob(rule, name, not problems,
+                  "every id of self.%s[*][*] is collected (then sorted and de-duplicated)" % acc[key] if not problems else "; ".join(sorted(set(problems))),
                   site=b.loc(), config=config)
 
 
